@@ -14,8 +14,10 @@ from __future__ import annotations
 import ast
 
 from ..core import AnalysisError, dotted
-from ..kinds import KindWalker, value_languages, ANYSET
-from ..lexmodel import LexModel, ANY
+from ..kinds import KindWalker, ANYSET
+from ..lexlaws import (Frames, law_payload_opaque, law_total,
+                       value_languages_probe)
+from ..lexprobe import LexProbe
 from ..pe import Interp, ModuleEnv
 
 level = "other"
@@ -64,9 +66,9 @@ def const_candidates(op, val):
 
 def check(chk, repo, tier):
     it = Interp(repo)
-    lm = LexModel(repo, it)
-    langs = value_languages(lm)
-    kinds = lm.kinds
+    lp = LexProbe(repo, it)
+    langs = value_languages_probe(lp)
+    kinds = lp.kinds
     chk.floor("token kinds", len(kinds), 9)
     LF = repo.mod("lexer").rel
     chk.trusted_base += ["CPython ast", "vystatic.pe constant folder"]
@@ -92,7 +94,19 @@ def check(chk, repo, tier):
                    f"{'any character' if lang.chars is ANYSET else sorted(lang.chars - exp)}"
                    "; the parser relies on this kind never spelling syntax",
                    LF, sample={"kind": k, "language": lang.describe()})
-    lexer_payload_rules(chk, lm, LF)
+    # lexer laws on the class-exhaustive probe model
+    fr = Frames(lp)
+    chk.unit("literal forms found by probing", {
+        "delimited": fr.delimited, "one-character": fr.prefix1,
+        "two-character": fr.prefix2, "comment": fr.comment})
+    chk.floor("delimited literal forms", len(fr.delimited), 3)
+    chk.floor("prefix literal forms", len(fr.prefix1) + len(fr.prefix2), 3)
+    chk.floor("comment heads", len(fr.comment), 1)
+    n = law_payload_opaque(chk, lp, fr, "C03.lexer-payload-opaque", LF)
+    law_total(chk, lp, "C03.lexer-total", LF)
+    chk.unit("lexer probes (payload law)", n)
+    chk.unit("lexer character classes", "".join(
+        c if c.isprintable() else "?" for c in lp.reps))
 
     # ---- parser: every read of .value ------------------------------------------------
     pparse = it.module("vyxal.parse")
@@ -150,10 +164,15 @@ def check(chk, repo, tier):
         "decisions happen only where parse.py reads a token's value; each such "
         "read is path-sensitively annotated with the set of token kinds that "
         "can reach it (refined by the .name tests on the path) and compared "
-        "with the value language the lexer gives each kind. Lexer side: "
-        "payload characters flow only into their token's value, are never "
-        "re-queued, and scan loops of free-text literals stop only at their "
-        "own delimiter. Does not decide what value a literal pushes (C05/C06).")
+        "with the value language the lexer gives each kind. Lexer side: the "
+        "current tokenise is interpreted on every string of length <= 2 (and "
+        "a reduced set of length 3) over the character classes the lexer "
+        "itself distinguishes; for every literal form found (delimited, one- "
+        "and two-character prefix literals, comments) replacing the payload "
+        "by any class representative leaves the sequence of token kinds "
+        "around it unchanged and the payload is the token's value; an escape "
+        "character must keep itself and the next character in the payload. "
+        "Does not decide what value a literal pushes (C05/C06).")
     chk.assumptions += [
         "tokens reach the parser only as lexer.Token objects built in "
         "lexer.tokenise (kind/value languages are derived from there)",
@@ -255,197 +274,3 @@ def witness_for(cname, risky):
 # ---------------------------------------------------------------------------
 
 
-def lexer_payload_rules(chk, lm: LexModel, LF):
-    src, head = lm.src_var, lm.head_var
-    fn = lm.fn
-    # L1: consumed input is never re-queued
-    requeue = [n for n in ast.walk(fn) if isinstance(n, ast.Call)
-               and dotted(n.func) in (f"{src}.appendleft", f"{src}.extendleft",
-                                      f"{src}.insert", f"{src}.append",
-                                      f"{src}.extend", f"{src}.rotate")]
-    chk.ob("C03.lexer-no-requeue", "lexer.tokenise", not requeue,
-           "consumed characters are put back on the input queue "
-           f"(line {requeue[0].lineno if requeue else '-'}); literal payload "
-           "could be re-scanned as syntax", LF,
-           requeue[0].lineno if requeue else None, sample="no appendleft")
-    # L2/L3 per branch
-    for br in lm.branches:
-        if br.chars is ANY:
-            continue
-        label = "".join(sorted(br.chars))
-        label = label if len(label) <= 6 else label[:6] + "…"
-        cons = f"lexer branch {label!r}"
-        free_text = any(k in ("STRING", "COMPRESSED_NUMBER",
-                              "COMPRESSED_STRING") for k in br.kinds) \
-            or br.discards
-        for st in br.body:
-            for n in ast.walk(st):
-                if isinstance(n, ast.While):
-                    ok, why = scan_guard_ok(n.test, src, head, lm, free_text)
-                    chk.ob("C03.lexer-scan-guard", f"{cons} line-loop", ok,
-                           f"scan loop guard `{ast.unparse(n.test)}` {why}",
-                           LF, n.lineno,
-                           sample={"branch": label,
-                                   "guard": ast.unparse(n.test)})
-        # every popleft flows into the token value or is a delimiter discard
-        # executed after the token was appended (or in a comment branch)
-        appended = False
-        for st in br.body:
-            has_append = any(isinstance(n, ast.Call) and n in br.token_sites
-                             for n in ast.walk(st))
-            for n in ast.walk(st):
-                if isinstance(n, ast.Expr) and isinstance(n.value, ast.Call) \
-                        and dotted(n.value.func) == f"{src}.popleft":
-                    # peek-then-commit: the character was copied from
-                    # source[0] by an earlier statement of the same block
-                    seq = None
-                    par = getattr(n, "_parent", None)
-                    for f in ("body", "orelse"):
-                        sq = getattr(par, f, None)
-                        if isinstance(sq, list) and n in sq:
-                            seq = sq
-                    peeked = seq is not None and any(
-                        isinstance(m, ast.Subscript)
-                        and isinstance(m.value, ast.Name)
-                        and m.value.id == src
-                        for prev in seq[:seq.index(n)]
-                        if isinstance(prev, (ast.Assign, ast.AugAssign))
-                        for m in ast.walk(prev))
-                    ok = appended or br.discards or peeked
-                    chk.ob("C03.lexer-popleft-accounted",
-                           f"{cons} discard@{'after-token' if ok else 'before-token'}",
-                           ok, "a character is consumed and dropped before the "
-                           "token is built: payload would be lost or shifted",
-                           LF, n.lineno)
-            if has_append:
-                appended = True
-    popped_char_rule(chk, lm, LF, "C03.lexer-popped-char-stored")
-    # L5: the payload of a free-text literal is consumed without looking at it
-    free_kinds = {"STRING", "COMPRESSED_NUMBER", "COMPRESSED_STRING",
-                  "CHARACTER", "CODEPAGE_NUMBER"}
-    for br in lm.branches:
-        for call in br.token_sites:
-            k = dotted(call.args[0]) or ""
-            kind = k.split(".")[-1] if k.startswith("TokenType.") else None
-            kinds = [kind] if kind else br.kinds
-            if not any(x in free_kinds for x in kinds):
-                continue
-            child = call
-            cur = getattr(call, "_parent", None)
-            while cur is not None and cur is not br.node and cur is not fn:
-                if isinstance(cur, ast.If) and not isinstance(
-                        cur, ast.While):
-                    peeks = [c for c in ast.walk(cur.test)
-                             if isinstance(c, ast.Subscript)
-                             and isinstance(c.value, ast.Name)
-                             and c.value.id == src]
-                    if peeks:
-                        chk.ob("C03.lexer-payload-not-inspected",
-                               f"lexer Token({'/'.join(kinds)}) under "
-                               f"`{ast.unparse(cur.test)[:40]}`", False,
-                               "whether the literal is built depends on the "
-                               "value of its own payload character: that "
-                               "payload becomes syntax instead of data", LF,
-                               cur.lineno,
-                               witness="0[5|⁺|_ 6] 9 splits at the payload")
-                child = cur
-                cur = getattr(cur, "_parent", None)
-    chk.ob("C03.lexer-payload-not-inspected", "all literal token sites", True)
-    # L4: the back-quote branch keeps backslash + next char in the payload
-    bq = [b for b in lm.branches if b.chars is not ANY and "`" in b.chars]
-    if not bq:
-        raise AnalysisError("anchor vanished: back-quote branch of the lexer")
-    esc_ok = False
-    for st in bq[0].body:
-        for n in ast.walk(st):
-            if isinstance(n, ast.If) and any(
-                    isinstance(c, ast.Constant) and c.value == "\\"
-                    for c in ast.walk(n.test)):
-                pops = [m for b in n.body for m in ast.walk(b)
-                        if isinstance(m, ast.AugAssign)
-                        and any(dotted(getattr(c, "func", None)) ==
-                                f"{src}.popleft" for c in ast.walk(m.value)
-                                if isinstance(c, ast.Call))]
-                if pops:
-                    esc_ok = True
-    chk.ob("C03.lexer-escape-capture", "lexer branch '`' backslash arm",
-           esc_ok, "inside a back-quoted string a backslash no longer pulls "
-           "the next character into the payload, so an escaped back-quote "
-           "would end the literal", LF, bq[0].line, sample="escape arm found")
-
-
-def scan_guard_ok(test, src, head, lm, free_text):
-    """Allowed conjuncts of a scan-loop guard: `source`, `source[0] != head`,
-    `source[0] != <newline>` (comment), `len(value) != 2`, `source[0] in
-    CONST` (charset kinds), and conditions over the accumulated value."""
-    conj = test.values if isinstance(test, ast.BoolOp) and isinstance(
-        test.op, ast.And) else [test]
-    for c in conj:
-        if isinstance(c, ast.Name) and c.id == src:
-            continue
-        if isinstance(c, ast.Compare) and len(c.ops) == 1:
-            left, op, right = c.left, c.ops[0], c.comparators[0]
-            is_src0 = (isinstance(left, ast.Subscript)
-                       and isinstance(left.value, ast.Name)
-                       and left.value.id == src)
-            if is_src0 and isinstance(op, ast.NotEq):
-                if isinstance(right, ast.Name) and right.id == head:
-                    continue
-                if isinstance(right, ast.Constant) and right.value == "\n" \
-                        and not any(True for _ in ()):
-                    continue
-                return False, ("stops at a character other than the literal's "
-                               "own delimiter")
-            if is_src0 and isinstance(op, ast.In):
-                if free_text:
-                    return False, ("restricts the payload of a free-text "
-                                   "literal to a character set")
-                continue
-            if not any(isinstance(n, ast.Name) and n.id == src
-                       for n in ast.walk(c)):
-                continue  # condition over the accumulated value only
-            # e.g. (value + source[0]).count("°") < 2
-            continue
-        if isinstance(c, ast.Call):
-            continue
-        return False, "has a conjunct the rule set does not recognise"
-    return True, ""
-
-
-def popped_char_rule(chk, lm, LF, RULE):
-    """L6: a character popped inside a scan loop is stored before the loop
-    can leave (pop-then-check drops the character that ends the literal)."""
-    src = lm.src_var
-    # L6: a character popped inside a scan loop is stored before the loop can
-    # leave (pop-then-check drops the character that ends the literal)
-    for br in lm.branches:
-        for st in br.body:
-            for lp in ast.walk(st):
-                if not isinstance(lp, ast.While):
-                    continue
-                pending = None
-                for s2 in lp.body:
-                    if isinstance(s2, ast.Assign) and len(s2.targets) == 1 \
-                            and isinstance(s2.targets[0], ast.Name) and any(
-                            isinstance(c, ast.Call) and dotted(c.func) ==
-                            f"{src}.popleft" for c in ast.walk(s2.value)):
-                        pending = s2.targets[0].id
-                        continue
-                    if pending and isinstance(s2, (ast.Assign,
-                                                   ast.AugAssign)) and any(
-                            isinstance(m, ast.Name) and m.id == pending
-                            for m in ast.walk(s2.value)) and not isinstance(
-                            s2, ast.If):
-                        pending = None
-                        continue
-                    if pending and any(isinstance(m, (ast.Break, ast.Continue))
-                                       for m in ast.walk(s2)):
-                        chk.ob(RULE,
-                               f"lexer scan loop line-var {pending}", False,
-                               f"the loop can leave while `{pending}` holds a "
-                               "character already removed from the input: that "
-                               "character is lost, so the text after a literal "
-                               "shifts", LF, s2.lineno,
-                               witness="1.5.25 lexes as 1.5, 25")
-                        pending = None
-    chk.ob(RULE, "all scan loops", True)
